@@ -2,6 +2,7 @@ package main
 
 import (
 	"fmt"
+	"os"
 	"go/types"
 	"sort"
 	"strings"
@@ -559,7 +560,7 @@ func (ex *Exec) bindResults(env *Env, fc *FuncContract, sig *types.Signature, re
 // ---- verifying one function ------------------------------------------------------------------------
 
 func NewExec(ctx *Ctx, fn *ssa.Function, fc *FuncContract, safety bool) *Exec {
-	return &Exec{ctx: ctx, D: NewDecls(), fn: fn, contract: fc, safety: safety, externs: map[string]bool{}, assumed: map[string]bool{},
+	return &Exec{noMemo: os.Getenv("GCV_NOMEMO") != "",ctx: ctx, D: NewDecls(), fn: fn, contract: fc, safety: safety, externs: map[string]bool{}, assumed: map[string]bool{},
 		inlined: map[string]bool{}, subKinds: map[string]int{}, litSeen: map[string]Term{}}
 }
 
